@@ -17,6 +17,7 @@ import (
 //	deliver  a node that serves the block
 //	slow     a node that serves the block after 7 virtual seconds
 //	drop     a node that disconnects (calls onStop) without serving
+//	drop-busy a node that disconnects after the first transaction while the handler stays busy for 7 virtual seconds
 //	silent   a node that never answers
 //	none     no node available
 type fakeRequestor struct {
@@ -68,6 +69,8 @@ func (r *fakeRequestor) RequestBlock(ctx context.Context, hash bitcoin.Hash32, h
 			node.deliver(blk, len(blk.txs))
 		case "drop":
 			node.stop()
+		case "drop-busy":
+			node.deliverStall(blk, len(blk.txs), true)
 		case "silent":
 		}
 	})
@@ -237,6 +240,7 @@ func managerScenarios(thorough bool) []*scenario {
 		{script: []string{"silent", "deliver"}, concurrent: 2, requests: 1},
 		{script: []string{"slow", "deliver"}, concurrent: 2, requests: 1},
 		{script: []string{"deliver", "deliver"}, concurrent: 1, requests: 2},
+		{script: []string{"drop-busy", "deliver"}, concurrent: 1, requests: 1},
 	}
 	if thorough {
 		configs = append(configs,
@@ -246,6 +250,7 @@ func managerScenarios(thorough bool) []*scenario {
 			mgrConfig{script: []string{"deliver", "drop", "deliver"}, concurrent: 1, requests: 2, abort: true},
 			mgrConfig{script: []string{"silent", "silent", "deliver"}, concurrent: 3, requests: 1},
 			mgrConfig{script: []string{"none"}, concurrent: 1, requests: 1},
+			mgrConfig{script: []string{"drop-busy", "drop-busy", "deliver"}, concurrent: 2, requests: 1, interrupt: false, abort: false},
 		)
 	}
 	for _, c := range configs {
